@@ -42,6 +42,8 @@ ASSUMPTIONS = [
     "sparsity: the declared pattern equals the true pattern of the linear test problem f(y) = A y (integer A derived from the pattern); "
     "the perturbation groups of the first finite-difference Jacobian are decoded from the arguments of the user's function (a call at t0 "
     "whose argument equals y0 except where it equals y0[c] + 2^-26*max(|y0[c]|,1) bit for bit) -- this decoding is part of the trusted base",
+    "jac_sparsity containers: duck-typed CSC / CSR-with-tocsc / COO-with-tocsc objects and, when scipy.sparse is importable in python3-vt, real "
+    "csc/csr/coo/lil matrices (otherwise the duck-typed object with the same protocol is used; evidence sparsity_containers_used says which)",
     "for m = 0 (t_eval = []) and k = 0 (sol([])) the contract demands the literal (n, 0) shapes (StrictEmpty = TRUE); the code returns "
     "(0, 0) resp. (0,): known findings C20/yshape/.*/shape-m0 and C20/solshape/.*/k0 (exercised by the 4 shape-m0 cases only)",
     "sol(t) is compared with Solution::sol only where the Rust API answers (inside the covered span); outside it only 'does not raise, shape (n,)'",
@@ -311,6 +313,8 @@ def run(tier, seed, replay, keep):
             "statuses_other_than_success": {k: v for k, v in cover_kinds.items() if k not in ("both-fail", "event-found")},
             "cases_with_event_found": cover_kinds.get("event-found", 0),
             "grouping_observations_by_number_of_groups": {str(k): v for k, v in sorted(grp_seen.items())},
+            "sparsity_containers_used": dict(collections.Counter(m["p"].get("sparsity_container", "") for m in merged
+                                                                 if m["c"]["has_sparsity"])),
             "drift": len(drift), "drift_by_kind": dict(drift_kinds),
             "contract_failures": len(viol), "known": n_known,
             "wall_model_s": round(r.wall, 2), "wall_rust_s": round(t_rust, 2), "wall_python_s": round(t_py, 2),
